@@ -371,3 +371,35 @@ def r_lock_6( ctx ):
                 else:
                     res.ok( src, w, 'machine %r of `with %s` is not touched after the block' % ( m, norm_text( it.context_expr )[:40] ))
     return res
+
+
+@rule( 'R-STATELESS', props=( 'C09', 'C07' ), floor=4 )
+def r_stateless( ctx ):
+    """the state objects of the (class-level, shared) parsers keep nothing about one parse: their run-time callbacks ( terminate / process /
+    initialize / validate ) never store an attribute of self - whatever belongs to one request lives in the data artifact or in a closure;
+    an attribute on the state instance would be overwritten by another session between a lock release and a deferred use"""
+    res = Result( 'R-STATELESS' )
+    n = 0
+    for rel in ( 'server/enip/parser.py', 'server/enip/device.py', 'server/enip/logix.py' ):
+        src = ctx.src( rel )
+        for cd in ast.walk( src.tree ):
+            if not isinstance( cd, ast.ClassDef ):
+                continue
+            for f in cd.body:
+                if not ( isinstance( f, ast.FunctionDef ) and f.name in ( 'terminate', 'process', 'initialize', 'validate' ) and f.args.args and f.args.args[0].arg == 'self' ):
+                    continue
+                n += 1
+                stores = []
+                for s in ast.walk( f ):
+                    tg = s.targets if isinstance( s, ast.Assign ) else [ s.target ] if isinstance( s, ( ast.AugAssign, ast.AnnAssign )) else []
+                    for t in tg:
+                        for y in ast.walk( t ):
+                            if isinstance( y, ast.Attribute ) and isinstance( y.value, ast.Name ) and y.value.id == 'self' and isinstance( y.ctx, ast.Store ):
+                                stores.append(( s, y.attr ))
+                if stores:
+                    s, a = stores[0]
+                    res.bad( src, s, '%s.%s stores self.%s' % ( cd.name, f.name, a ),
+                             'the state instance is part of a parser shared by all sessions: data of one request kept on it can be replaced by another session before it is used (e.g. between the release of the parser lock and a deferred closure)', func='%s.%s' % ( cd.name, f.name ))
+                else:
+                    res.ok( src, f, '%s.%s keeps no per-parse state on the shared state object' % ( cd.name, f.name ), nontrivial=False )
+    return res
